@@ -131,14 +131,15 @@ func (x *Ctx) checkUnit(track int, d muxrun.DecSample, e expUnit, next *expUnit,
 		}
 		// exact rational expected value: pts*90000/rate
 		check := func(name string, got, want int64) {
-			num := want * 90000
+			// (split so that wall-clock sized time stamps do not overflow the product)
 			den := int64(ts.ClockRate)
-			lo := num / den
-			if num%den != 0 && num < 0 {
-				lo--
+			q, r := want/den, want%den
+			if r < 0 {
+				q, r = q-1, r+den
 			}
+			lo := q*90000 + r*90000/den
 			hi := lo
-			if num%den != 0 {
+			if r*90000%den != 0 {
 				hi = lo + 1
 			}
 			if got != mod33(lo) && got != mod33(hi) {
